@@ -326,7 +326,7 @@ pub enum Fault {
 
 fn run_faults(ctx: &mut Ctx) {
     let rt = act::runtime(2);
-    for case in ctx.cases(20, 600) {
+    for case in ctx.cases(40, 1_200) {
         let mut rng = ctx.rng(case);
         rt.block_on(fault_case(ctx, case, &mut rng));
     }
